@@ -128,3 +128,13 @@ def causality_lemma2(c, name, T, defs, recursive=True, domain=lambda a, b: []):
     if recursive: hyps.append(z3.ForAll([m], z3.Implies(z3.And(0 <= m, m < n), T(a, b, m) == T(a2, b2, m))))
     hyps += list(defs(c, a, b, n)) + list(defs(c, a2, b2, n))
     return ('causality of %s: coefficient n depends on input coefficients <= n only' % name, hyps, T(a, b, n) == T(a2, b2, n), ())
+
+
+# ---------------------------------------------------------------------------------------------------------------------------------
+# causal spec functions: coefficient n of T depends on the coefficients <= n of its array arguments only.  The induction step of each
+# is a discharged lemma obligation (causality_lemma / causality_lemma2 in the kernel contracts); vc/dataflow.py uses instances of
+# the resulting theorem.  value = (function, domain premises over the array arguments of the left application)
+CAUSAL = {}
+def _causal(T, dom=lambda *a: []): CAUSAL[T.name()] = (T, dom)
+_causal(CONV); _causal(QUOT, lambda x, y: [y[0] != 0]); _causal(RECIP, lambda y: [y[0] != 0])
+_causal(EXP); _causal(BFWF)
